@@ -249,3 +249,33 @@ func VerifC14CellSpec(f *File, sheet string, max int) []string {
 	}
 	return out
 }
+
+// VerifC14CheckSheetSlots builds a worksheet from a spec and runs checkSheet
+// only; it returns "ok <number of row slots>" or "ERR". Panics propagate.
+func VerifC14CheckSheetSlots(spec string) string {
+	ws := new(xlsxWorksheet)
+	if spec != "-" {
+		for _, rs := range strings.Split(spec, ";") {
+			parts := strings.Split(rs, ",")
+			r, _ := strconv.Atoi(parts[0])
+			row := xlsxRow{R: r}
+			for _, cs := range parts[1:] {
+				kv := strings.Split(cs, ":")
+				c := xlsxC{}
+				if kv[0] != "-" {
+					b, _ := hex.DecodeString(kv[0])
+					c.R = string(b)
+				}
+				if len(kv) > 1 && kv[1] == "1" {
+					c.V = "x"
+				}
+				row.C = append(row.C, c)
+			}
+			ws.SheetData.Row = append(ws.SheetData.Row, row)
+		}
+	}
+	if err := ws.checkSheet(); err != nil {
+		return "ERR"
+	}
+	return "ok " + strconv.Itoa(len(ws.SheetData.Row))
+}
